@@ -73,8 +73,8 @@ class C18(E1Prop):
         return [H("prop_C18_num_gcc", "prop_C18.cpp", shards=8),
                 H("prop_C18_num_clang", "prop_C18.cpp", shards=8, compiler="clang++"),
                 H("prop_C18_num_gcc_isa", "prop_C18.cpp", shards=8, flags=core.SAN + zoo.isa_flags()),
-                H("prop_C18_sizing_bmi2", "prop_C18.cpp", shards=9, defines=["VF_C18_SIZING"], flags=core.SAN + zoo.isa_flags()),
-                H("prop_C18_sizing_nobmi2", "prop_C18.cpp", shards=9, defines=["VF_C18_SIZING"])]
+                H("prop_C18_sizing_bmi2", "prop_C18.cpp", shards=13, defines=["VF_C18_SIZING"], flags=core.SAN + zoo.isa_flags()),
+                H("prop_C18_sizing_nobmi2", "prop_C18.cpp", shards=13, defines=["VF_C18_SIZING"])]
 
 
 @prop("C14")
